@@ -19,9 +19,14 @@ structure W where
   recordOut : Val ⊕ Val := .inl .none   -- what `.record(…)` of the scope in the variable does
   recorded : List (Val × Val × Val) := []   -- (receiver, metric, merge) of those calls
   logged : Nat := 0                 -- calls of `cls.log_error`
+  received : List Val := []         -- what the nested scopes' merged views yield, chained in creation order
+
+/-- the `MISSING` placeholder -/
+def missingV : Val := .obj 999
 
 /-- externals: 110 `future.done()`  140 `type(x)`  141 `merge(a, b)`  102 `cls._context.get()`
-150 `<scope>.record(metric, merge=merge)`  151 `cls.log_error(…)` -/
+150 `<scope>.record(metric, merge=merge)`  151 `cls.log_error(…)`  142 `not_missing(x)`
+143 `chain.from_iterable(nested.metrics(merge=merge) for nested in self._nested)` -/
 def ext : World W := fun f args w fl =>
   (fun (r : Option ((Val ⊕ Val) × W)) => r.map fun (x, w') => (x, w', fl)) <|
   match f, args with
@@ -33,6 +38,8 @@ def ext : World W := fun f args w fl =>
       | none => some (.inr (.exc cLookupError 0), w))
   | 150, [recv, metric, merge] => some (w.recordOut, { w with recorded := w.recorded ++ [(recv, metric, merge)] })
   | 151, _ => some (.inl .none, { w with logged := w.logged + 1 })
+  | 142, [x] => some (.inl (.bool (!x.same missingV)), w)
+  | 143, [] => some (.inl (.list w.received), w)
   | _, _ => none
 
 abbrev Store := List (Nat × Nat)        -- type ↦ identity of the stored value, insertion order
